@@ -6,9 +6,16 @@ From CC Require Import Base.Str Model.Cpp.
 Import ListNotations.
 Open Scope string_scope.
 
-(** the known deviation of the #if evaluator from C, on the model (known findings F-C07-...) *)
-Theorem C07_evaluate_two_refuted : evaluate "2" = EvOk false "" /\ evaluate "2 == 3" = EvOk true "".
+(** numbers in #if are C integer constants: any non-zero value holds, == compares the values *)
+Theorem C07_evaluate_numbers : evaluate "2" = EvOk true "" /\ evaluate "2 == 3" = EvOk false "".
 Proof. split; vm_compute; reflexivity. Qed.
+
+(** ! gives 0 or 1; hexadecimal and octal constants are read as such; malformed ones are rejected *)
+Theorem C07_evaluate_number_forms :
+  evaluate "!2" = EvOk false "" /\ evaluate "!!2 == 1" = EvOk true ""
+  /\ evaluate "0x10 == 16" = EvOk true "" /\ evaluate "010 == 8" = EvOk true ""
+  /\ evaluate "08" = EvErr "Invalid number".
+Proof. vm_compute. repeat split; reflexivity. Qed.
 
 (** a concrete nested arrangement: only the selected branches survive, inert directives ignored *)
 Theorem C07_example_nested :
@@ -58,6 +65,18 @@ Proof. exact inactive_define_undef_inert. Qed.
 (** the evaluator is C's on expressions over 0, 1, ! and == *)
 Theorem C07_evaluate_bool_correct : forall e : bexp, evaluate (print e) = EvOk (value e) "".
 Proof. exact evaluate_bool_correct. Qed.
+
+(** the evaluator is C's on chains [u1 == u2 == ... == uk] (left associative) of constants below
+    2^63, printed in decimal, under any number of prefix [!]: the condition holds exactly when
+    the C value ([value_n]: [!x] is 1 when x is 0, else 0; [a == b] is 1 when equal, else 0) is
+    not 0 *)
+Theorem C07_evaluate_int_correct : forall e : nexp,
+  small_n e -> evaluate (print_n e) = EvOk (negb (N.eqb (value_n e) 0)) "".
+Proof. exact evaluate_int_correct. Qed.
+
+(** a printed decimal below 2^63 is read back as itself (never as an octal or hexadecimal) *)
+Theorem C07_parse_c_int_print_dec : forall n : N, (n < 2 ^ 63)%N -> parse_c_int (print_dec n) = Some n.
+Proof. exact parse_c_int_print_dec. Qed.
 
 (** non-vacuity of tree_ok: a nested example with inert directives in dead regions *)
 Example C07_tree_ok_example :
